@@ -5,6 +5,8 @@ set -e
 cd "$(dirname "$0")/.."
 b="$1"
 GEN="MANIFEST.json lean/Driver.lean lean/EdzedModel.lean lean/EdzedProofs.lean lean/EdzedProps.lean lean/EdzedModel/Gen/Constants.lean lean/EdzedModel/Gen/Translated.lean"
+# local changes (evidence rewritten by check runs) would block the merge
+git add -A; git commit -qm "work in progress before merging $b" || true
 git merge --no-commit "$b" || true
 for f in $GEN; do git checkout --ours -- "$f" 2>/dev/null || true; done
 # evidence files are rewritten by every run: take the branch's version
